@@ -14,7 +14,7 @@ import (
 
 // StrOp is one operation of the sequential string model.
 type StrOp struct {
-	Kind string   // GET SET SETNX GETSET INCR DECR DECRBY INCRBY APPEND MSETNX DEL
+	Kind string   // GET STRLEN SET SETNX GETSET INCR DECR DECRBY INCRBY APPEND MSETNX DEL
 	Keys []string // one key, or several for MSETNX/DEL
 	Vals []string // value(s) / increment / suffix
 	// TTL > 0: a SET with EX (whole seconds) or PX. Kind "EXPIRE?" is not a command but the moment from which the
@@ -130,6 +130,8 @@ func ModelStep(s strState, op StrOp) (strState, resp.Value, bool) {
 		}
 	}
 	switch op.Kind {
+	case "STRLEN":
+		return n, resp.In(int64(len(cur))), false
 	case "GET":
 		if !has {
 			return n, resp.NullBulk(), false
